@@ -20,6 +20,7 @@ type Solver struct {
 	in   io.WriteCloser
 	out  *bufio.Reader
 	args []string
+	wq   chan string
 }
 
 func solverArgs(name string) []string {
@@ -49,15 +50,34 @@ func startSolver(name string) (*Solver, error) {
 	if err := cmd.Start(); err != nil {
 		return nil, err
 	}
-	s := &Solver{name: name, cmd: cmd, in: in, out: bufio.NewReaderSize(out, 1<<20), args: a}
+	s := &Solver{name: name, cmd: cmd, in: in, out: bufio.NewReaderSize(out, 1<<20), args: a, wq: make(chan string, 256)}
+	// a single writer goroutine keeps the order of everything sent to the solver and never blocks the caller
+	go func() {
+		for str := range s.wq {
+			if _, err := io.WriteString(in, str); err != nil {
+				for range s.wq {
+				}
+				return
+			}
+		}
+	}()
 	if name == "cvc5" {
-		io.WriteString(in, "(set-logic ALL)\n")
+		s.send("(set-logic ALL)\n")
 	}
-	io.WriteString(in, "(set-option :produce-models true)\n")
+	s.send("(set-option :produce-models true)\n")
 	return s, nil
 }
 
+func (s *Solver) send(str string) {
+	defer func() { recover() }() // send on a closed queue after kill
+	s.wq <- str
+}
+
 func (s *Solver) kill() {
+	func() {
+		defer func() { recover() }()
+		close(s.wq)
+	}()
 	if s.cmd != nil && s.cmd.Process != nil {
 		s.cmd.Process.Kill()
 		s.cmd.Wait()
@@ -108,11 +128,7 @@ func (s *Solver) run(body string, vars []string, timeout time.Duration) QueryRes
 		return ch
 	}
 	csCh := readUntil("<<cs>>")
-	werr := make(chan error, 1)
-	go func() {
-		_, err := io.WriteString(s.in, sb.String())
-		werr <- err
-	}()
+	s.send(sb.String())
 	var r lineRes
 	select {
 	case r = <-csCh:
@@ -149,7 +165,7 @@ func (s *Solver) run(body string, vars []string, timeout time.Duration) QueryRes
 			gv.WriteString("|" + v + "| ")
 		}
 		gv.WriteString("))\n(echo \"<<gv>>\")\n")
-		io.WriteString(s.in, gv.String())
+		s.send(gv.String())
 		select {
 		case r = <-readUntil("<<gv>>"):
 			res.Model = parseModel(strings.Join(r.lines, " "))
@@ -158,7 +174,7 @@ func (s *Solver) run(body string, vars []string, timeout time.Duration) QueryRes
 			res.Verdict = "unknown"
 		}
 	}
-	io.WriteString(s.in, "(pop 1)\n")
+	s.send("(pop 1)\n")
 	res.MS = time.Since(start).Milliseconds()
 	return res
 }
@@ -238,6 +254,7 @@ type Pool struct {
 	n       int
 	Queries int
 	TotalMS int64
+	base    string
 }
 
 func newPool(name string, n int) *Pool { return &Pool{name: name, n: n} }
@@ -254,6 +271,11 @@ func (p *Pool) get() *Solver {
 	s, err := startSolver(p.name)
 	if err != nil {
 		panic(err)
+	}
+	if p.base != "" {
+		// shared definitions of the harness; written from a goroutine so that a solver that echoes
+		// errors cannot dead-lock against the pipe
+		s.send(p.base)
 	}
 	return s
 }
@@ -287,7 +309,7 @@ func (p *Pool) close() {
 	p.mu.Lock()
 	defer p.mu.Unlock()
 	for _, s := range p.idle {
-		io.WriteString(s.in, "(exit)\n")
+		s.send("(exit)\n")
 		s.kill()
 	}
 	p.idle = nil
